@@ -20,7 +20,7 @@ static void log_all(Ev &ev) {
     for (std::map<int, ascon::byte_array *>::iterator it = g_vars.begin(); it != g_vars.end(); ++it) {
         const ascon::byte_array &b = *it->second;          // const access: must not detach or modify
         if (!first) os << ","; first = false;
-        os << "{\"id\":" << it->first << ",\"size\":" << b.size() << ",\"empty\":" << (b.empty() ? 1 : 0) << ",\"data\":[";
+        os << "{\"id\":" << it->first << ",\"size\":" << b.size() << ",\"empty\":" << (b.empty() ? 1 : 0) << ",\"capok\":" << (b.capacity() >= b.size() ? 1 : 0) << ",\"data\":[";
         const unsigned char *p = b.data();
         for (size_t i = 0; i < b.size(); ++i) { if (i) os << ","; os << (unsigned)p[i]; }
         os << "]}";
